@@ -477,11 +477,12 @@ impl Codec for Dict {
         self.c.as_ref().ok_or(NO_MODEL.to_string())?.decompress(blob).map_err(estr)
     }
     fn max_len(&self, thorough: bool) -> usize {
-        // compress() compares every position with the whole 32 KiB window
+        // compress() compares every position with the whole 32 KiB window and DictionaryBuilder::build every
+        // position with every earlier one of the same hash, up to 258 bytes each: minutes on repetitive data
         if thorough {
-            65536
+            16384
         } else {
-            8192
+            4096
         }
     }
 }
@@ -876,6 +877,7 @@ struct Stats {
     decode_errors: u64,
     panics: u64,
     skipped_payloads: u64,
+    skipped_sessions: u64,
     tables: u64,
     code_tables: u64,
     bytes: u64,
@@ -908,6 +910,10 @@ fn run_subject(a: &Args, name: &str) {
             continue;
         }
         let mode = if trains { s.mode } else { "self" };
+        if trains && s.train.len() > codec.max_len(a.thorough()) {
+            st.skipped_sessions += 1;
+            continue;
+        }
         let _ = std::fs::write(&progress, format!("{si}"));
         tr.reset("codec", name, json!({"fam":fam,"variant":variant,"streams":streams,"mode":mode,"klass":s.klass,"sess":si,"tier":a.tier,"seed":a.seed.to_string()}));
         tr.flush();
@@ -1026,7 +1032,7 @@ fn run_subject(a: &Args, name: &str) {
     let v = json!({"subject":name,"events":tr.total_events,"runs":tr.runs,"files":files,"samples":samples,
         "stats":{"sessions":st.sessions,"roundtrips_nontrivial":st.nontrivial,"trains_ok":st.trains_ok,"trains_refused":st.trains_refused,
                  "encodes_ok":st.encodes_ok,"encodes_refused":st.encodes_refused,"decodes":st.decodes,"decode_errors":st.decode_errors,
-                 "panics":st.panics,"skipped_payloads":st.skipped_payloads,"tables":st.tables,"code_tables":st.code_tables,"payload_bytes":st.bytes}});
+                 "panics":st.panics,"skipped_payloads":st.skipped_payloads,"skipped_sessions":st.skipped_sessions,"tables":st.tables,"code_tables":st.code_tables,"payload_bytes":st.bytes}});
     std::fs::write(a.out.join(format!("sub-{name}-f{from}.json")), serde_json::to_vec(&v).unwrap()).expect("write subject summary");
 }
 
